@@ -993,6 +993,12 @@ impl<'p> Interp<'p> {
 					let cv = self.eval_const(&e, &ty, Some(tyname))?;
 					return self.match_value(&cv, v);
 				}
+				// numeric constants such as PeriodType::MAX
+				if ITy::from_name(&tyname).is_some() || tyname == "f64" {
+					let ep = syn::ExprPath { attrs: vec![], qself: p.qself.clone(), path: p.path.clone() };
+					let cv = self.eval_path(&ep, None)?;
+					return self.match_value(&cv, v);
+				}
 				self.match_variant(&tyname, &var, &[], v)
 			}
 			syn::Pat::Struct(s) => {
